@@ -7,6 +7,7 @@ pub mod links;
 pub mod names;
 pub mod paths;
 pub mod positions;
+pub mod rename;
 pub mod sched;
 pub mod reqs;
 
@@ -19,6 +20,7 @@ pub fn get(id: &str) -> Option<Box<dyn Engine>> {
         "C11" => Some(Box::new(sched::C11)),
         "C14" => Some(Box::new(names::C14)),
         "C15" => Some(Box::new(paths::C15)),
+        "C08" => Some(Box::new(rename::C08)),
         "C13" => Some(Box::new(positions::C13)),
         "C05" => Some(Box::new(links::C05)),
         "C06" => Some(Box::new(links::C06)),
